@@ -260,11 +260,15 @@ def step_paths(idx, byte, tracing=0, truncate=1, O=None, hooks=None):
     p = Path(processor_fields(tracing, truncate, O))
     # the fetch = the statements up to and including the first assignment to `instr` (may fork, e.g. a fetch buffer)
     cur = [p]
+    early = []
     k = 0
     while k < len(stmts) and any('instr' not in q.written for q in cur):
         nxt = []
         for q in cur:
             for r, fl, rv in I.stmt(stmts[k], q):
+                if fl is None and r.status == 'throw':
+                    early.append((r, fl, rv))       # a guard in front of the fetch that refuses some states: a leaf of its own
+                    continue
                 if fl is not None or r.status != 'run':
                     raise AnalysisBroken('control leaves the run loop body before the instruction fetch')
                 nxt.append(r)
@@ -276,7 +280,7 @@ def step_paths(idx, byte, tracing=0, truncate=1, O=None, hooks=None):
     if byte is not None:
         for q in cur:
             q.fields['instr'] = const(32, byte)
-    leaves = I.seq(stmts[k:], cur)
+    leaves = I.seq(stmts[k:], cur) + early
     return fetch, leaves, I
 
 
